@@ -78,6 +78,11 @@ def emit_expr(o, e):
         return S.PYOPS[e["op"]](l, r)
     if k == "not":
         return ~emit_expr(o, e["e"])
+    if k == "psel":
+        f = emit_expr(o, e["e"])
+        if e.get("bit"):
+            return f[e["hi"]]
+        return f[e["hi"]:e["lo"]]
     if k in ("in", "notin"):
         lhs = emit_expr(o, e["e"])
         items = []
